@@ -102,6 +102,7 @@ package dns
 //@   pure
 
 //@ func packDomainName [C03 C04 C08 C16]
+//@   callsite "PutUint16" ptrword: 0 <= pointer && pointer < 16384 && arg2 == 49152 + pointer [C04]
 //@   callsite "find" findkey: same(arg1, s[compBegin:]) [C04]
 //@   callsite "insert" inskey: same(arg1, s[compBegin:]) [C04]
 //@   requires 0 <= off
